@@ -82,6 +82,9 @@ int main(int argc, char** argv) {
   };
   std::vector<ApiGroup> groups = api_groups(o);
   ctx.parallel(groups.size(), [&](uint64_t gi) { run_group(groups[gi], o, runs); }, "entry points");
+  BoxOpts ol = large_layer(th, o.cf);
+  std::vector<ApiGroup> lgroups = api_groups(ol);
+  ctx.parallel(lgroups.size(), [&](uint64_t gi) { run_group(lgroups[gi], ol, runs); }, "entry points, large ring dimensions");
   std::vector<KernelGroup> kg = kernel_groups(th);
   ctx.parallel(kg.size(), [&](uint64_t gi) { run_kernel_group(kg[gi], th, [&](ApiCase& c, const KernelInfo&) { runs(c); }); }, "kernels");
 
